@@ -31,6 +31,7 @@ import (
 	"math/big"
 	"sort"
 	"strings"
+	"time"
 
 	"github.com/polynetwork/poly/common"
 	"github.com/polynetwork/poly/common/config"
@@ -209,8 +210,10 @@ func main() {
 	weak := polyenv.Signer{Keys: vals, M: 2} // 2-of-4: an address different from the operator's 3-of-4
 	pool := ccm.NewWorlds(16)
 	pairs := [][2]uint64{{A, B}, {A, C}, {B, A}, {B, C}, {C, A}, {C, B}, {A, R}, {B, R}, {C, R}}
+	t0 := time.Now()
+	soft := 25 * time.Minute // keep the thorough tier inside its 30 min budget on a loaded machine (evidence then says capped)
 	st := mc.BFS(mc.Config[state]{
-		Init: []state{s0, s1}, MaxDepth: depth, Workers: 16, Stop: r.Expired,
+		Init: []state{s0, s1}, MaxDepth: depth, Workers: 16, Stop: func() bool { return r.Expired() || time.Since(t0) > soft },
 		Key: func(s state) string { return s.key() },
 		Events: func(s state, d int) []string {
 			var e []string
